@@ -10,7 +10,7 @@ package main
 //   la:<status> LOGINACK   dn:<status> DONE   msg:<id> MSG   pf:<types> PARAMFMT (types i=INT4 l=LONGBINARY v=VARCHAR b=VARBINARY)
 //   pm:<vals>   PARAMS matching the preceding pf (i<v> int, k valid PEM key, kb garbage key, kt PEM key with
 //               trailing bytes, n<len> nonce of len bytes, e empty longbinary, v varchar "x")
-//   cap:ok | cap:zero CAPABILITY   eed  EED (non-info)   ot  RETURNSTATUS   env:<size> ENVCHANGE(PACKSIZE)
+//   cap:ok | cap:zero | cap:noreq | cap:nores | cap:empty CAPABILITY (all-zero masks; a type left out)   eed  EED (non-info)   ot  RETURNSTATUS   env:<size> ENVCHANGE(PACKSIZE)
 // Answer: `success|error|blocked <messages sent by the client>` (+ ` # <oracle verdict>` on the Go side).
 
 import (
@@ -201,7 +201,20 @@ func buildReplies(toks []string) (msgs [][]byte, nonces [][]byte, capMask []byte
 			if capMask == nil {
 				capMask = req
 			}
-			cur = append(cur, wCapability(map[byte][]byte{1: req, 2: res})...)
+			// replies that leave a capability type out: the client keeps its empty default mask for that
+			// type, which counts as "not understood" like an explicit all-zero mask
+			types := map[byte][]byte{1: req, 2: res}
+			switch arg {
+			case "noreq", "nores", "empty":
+				req[13], req[5], res[6] = 0x02, 0x40, 0x02
+				if arg != "nores" {
+					delete(types, 1)
+				}
+				if arg != "noreq" {
+					delete(types, 2)
+				}
+			}
+			cur = append(cur, wCapability(types)...)
 		case "eed":
 			cur = append(cur, wEED(4002, 0, "Login failed.\n")...)
 		case "ot":
@@ -462,7 +475,7 @@ func loginImpl(line string) string {
 }
 
 var loginEdits = []string{"la:5", "la:6", "la:7", "dn:0", "dn:2", "dn:1", "dn:16", "msg:35", "msg:31", "msg:1", "pf:ill", "pf:il", "pf:illl", "pf:lli", "pf:ivl", "pf:ibl", "pf:ilb", "pf:ibb",
-	"pm:i1,k,n16", "pm:i2,k,n16", "pm:i1,kb,n16", "pm:i1,kt,n16", "pm:i1,k,n0", "pm:i1,e,n16", "pm:i1,k,n60", "cap:ok", "cap:zero", "eed", "ot", "|"}
+	"pm:i1,k,n16", "pm:i2,k,n16", "pm:i1,kb,n16", "pm:i1,kt,n16", "pm:i1,k,n0", "pm:i1,e,n16", "pm:i1,k,n60", "cap:ok", "cap:zero", "cap:noreq", "cap:nores", "cap:empty", "eed", "ot", "|"}
 
 func pmFor(pf string, rng *mrand.Rand) string {
 	var vals []string
@@ -622,11 +635,11 @@ func loginGen(tier string, rng *mrand.Rand, emit func(Case)) {
 
 func init() {
 	register(&Prop{
-		ID:     "C08",
-		Gen:    loginGen,
-		Impl:   loginImpl,
-		Oracle: txOracle,
-		Agree:  func(m, i string) bool { return m == txStrip(i) },
+		ID:         "C08",
+		Gen:        loginGen,
+		Impl:       loginImpl,
+		Oracle:     txOracle,
+		Agree:      func(m, i string) bool { return m == txStrip(i) },
 		FindingKey: func(line, out, clause string) string { return clause },
 		Nontrivial: func(line, out string) bool { return !strings.HasPrefix(out, "error 0") },
 		Rule:       "scripted peer over an in-memory transport (net.Conn read semantics): the valid reply scripts of both flows, all single-edit mutants (delete / duplicate / swap / replace by or insert one of 28 packages), unsupported encryption ids, host names 0..60, password lengths 0..90 (RSA-OAEP capacity), random multi-edit scripts; real RSA key (1024 bit). Outcome = success | error | blocked (returns when the 250 ms context expires) and the number of messages the client sent. Non-trivial = the client got past building the login record",
